@@ -83,6 +83,10 @@ pub struct CeremonyTrace {
     /// block object that is verified did not come out of the parser as it is
     #[serde(default)]
     pub mem_sigdup: Vec<usize>,
+    /// the verifications run on the worker's long-lived verifier thread (thread-local state of the library
+    /// carries over from one call, and from one ceremony, to the next) instead of a fresh thread each
+    #[serde(default)]
+    pub same_thread: bool,
 }
 
 /// The same key material declared with another scheme (None if the library refuses to build it).
@@ -373,10 +377,11 @@ pub fn finish(t: &CeremonyTrace, p: &Prepared) -> CeremonyOutcome {
         let threshold = t.threshold;
         let expect = parsed.metadata.clone();
         let hs = t.hash_seeds.get(rep).copied().unwrap_or(1);
-        let r = exec::in_fresh_thread(hs, move || match p.verify(threshold, a.iter()) {
+        let call = move || match p.verify(threshold, a.iter()) {
             Ok(m) => Ok(m == expect),
             Err(e) => Err(exec::err_class(&e)),
-        });
+        };
+        let r = if t.same_thread { exec::in_same_thread(hs, call) } else { exec::in_fresh_thread(hs, call) };
         match r {
             Ok(x) => out.results.push(x),
             Err(pn) => {
@@ -495,7 +500,12 @@ fn fold(t: &CeremonyTrace, o: &CeremonyOutcome, findings: Vec<Finding>, rec: &mu
     }
     let mut d = Digest::new();
     d.update(&rec.log_digest.to_le_bytes());
-    d.str(&format!("{:?}", o.results));
+    // (on the long-lived thread the order of maps, and with it which error comes first, depends on history)
+    if t.same_thread {
+        d.str(&format!("{:?}", o.results.iter().map(|r| r.clone().map_err(|_| ())).collect::<Vec<_>>()));
+    } else {
+        d.str(&format!("{:?}", o.results));
+    }
     d.str(&format!("{:?}", o.sig_truth.iter().map(|x| x.1).collect::<Vec<_>>()));
     d.str(if o.parsed { "parsed" } else { "unparsed" });
     rec.log_digest = d.finish();
@@ -757,6 +767,7 @@ fn base_trace(seed: u64, tier: Tier, mode: Mode) -> (CeremonyTrace, Rng) {
             }
         },
         mem_sigdup: vec![],
+        same_thread: gen::same_thread_block(seed),
     };
     (t, r)
 }
